@@ -11,6 +11,7 @@ import (
 	"fmt"
 	"os"
 	"sort"
+	"strconv"
 	"strings"
 	"sync"
 	"time"
@@ -460,6 +461,28 @@ func (r *runner) do(op M) M {
 		res["err"] = errStr(st.AddAddress(tcpip.NICID(geti(op, "nic", 1)), np, a))
 	case "rmaddr":
 		res["err"] = errStr(st.RemoveAddress(tcpip.NICID(geti(op, "nic", 1)), addrOf(gets(op, "addr", ""))))
+	case "addsubnet", "rmsubnet":
+		// a byte-aligned IPv4 subnet given as a textual prefix ("10.1." = 10.1.0.0/16): the interface then accepts every
+		// destination inside it. The event carries key = "net:" + prefix for the trace spec.
+		pre := gets(op, "prefix", "")
+		parts := strings.Split(strings.TrimSuffix(pre, "."), ".")
+		ab, mb := make([]byte, 4), make([]byte, 4)
+		for i, p := range parts {
+			if i < 4 {
+				n, _ := strconv.Atoi(p)
+				ab[i], mb[i] = byte(n), 0xff
+			}
+		}
+		sn, serr := tcpip.NewSubnet(tcpip.Address(ab), tcpip.AddressMask(mb))
+		if serr != nil {
+			vh.Fatal("subnet %q: %v", pre, serr)
+		}
+		res["key"] = "net:" + pre
+		if name == "addsubnet" {
+			res["err"] = errStr(st.AddSubnet(tcpip.NICID(geti(op, "nic", 1)), wire.ProtoIPv4, sn))
+		} else {
+			res["err"] = errStr(st.RemoveSubnet(tcpip.NICID(geti(op, "nic", 1)), sn))
+		}
 	case "promisc":
 		res["err"] = errStr(st.SetPromiscuousMode(tcpip.NICID(geti(op, "nic", 1)), getb(op, "on")))
 	case "sleep":
